@@ -1295,14 +1295,14 @@ def nconcat2(src, log):
                 if c + 4 < len(toks) and toks[c + 1].text == "." and toks[c + 2].text == "concat" \
                         and toks[c + 3].text == "(" and toks[c + 4].text == ")":
                     parts = _split_args(src, toks, i)
-                    if len(parts) == 2 and not (i > 0 and (toks[i - 1].kind in ("ident", "close"))):
+                    if len(parts) in (2, 3, 4) and not (i > 0 and (toks[i - 1].kind in ("ident", "close"))):
                         hit = (i, c, parts)
                         break
         if hit is None:
             return src
         i, c, parts = hit
-        src = src[:toks[i].start] + f"vx_concat2({parts[0]}, {parts[1]})" + src[toks[c + 4].end:]
-        log.append("N7 [a, b].concat() -> vx_concat2(a, b)")
+        src = src[:toks[i].start] + f"vx_concat{len(parts)}({', '.join(parts)})" + src[toks[c + 4].end:]
+        log.append(f"N7 [a, b, ..].concat() -> vx_concat{len(parts)}(a, b, ..)")
 
 
 def nresize(src, log):
@@ -1325,6 +1325,18 @@ def nresize(src, log):
         out += src[pos:m.start()] + f"vx_resize_u64(&mut {m.group(1)}, {parts[0]}, {parts[1]})"
         pos = toks[close].end
         log.append("nresize PLACE.resize(n, v) -> vx_resize_u64(&mut PLACE, n, v)")
+
+
+def nextend(src, log):
+    """`PLACE.extend(X);` (statement; PLACE a field path, X a Vec consumed by value) -> `{ let mut __vx_eN = X; PLACE.append(&mut __vx_eN); }`
+    (std: for a Vec argument `extend` appends its elements in order, as `append` does).  Generic in X."""
+    pat = re.compile(r"(?<![\w.])((?:\w+\.)+\w+|\w+)\.extend\((\w+)\);")
+    k = [0]
+    def rep(m):
+        k[0] += 1
+        log.append("nextend PLACE.extend(x); -> let mut e = x; PLACE.append(&mut e);")
+        return f"{{ let mut __vx_e{k[0]} = {m.group(2)}; {m.group(1)}.append(&mut __vx_e{k[0]}); }}"
+    return pat.sub(rep, src)
 
 
 def ncopyrange(src, log):
@@ -1778,6 +1790,8 @@ def normalise(src, rules, log, ctx=None):
             src = nblockpush(src, log)
         elif r == "nconcat2":
             src = nconcat2(src, log)
+        elif r == "nextend":
+            src = nextend(src, log)
         elif r == "nresize":
             src = nresize(src, log)
         elif r == "ncopyrange":
